@@ -163,8 +163,14 @@ static inline int a_ctz_l(unsigned long x) {
 
 static inline int pntz(size_t p[2]) {
     int r = ntz(p[0] - 1);
-    if (r != 0 || (r = 8 * sizeof(size_t) + ntz(p[1])) != 8 * sizeof(size_t)) {
+    if (r != 0) {
         return r;
+    }
+    /* Nothing above bit 0 in p[0]: the answer is in p[1] unless p[1] is
+       empty. Test p[1] itself: 8 * sizeof(size_t) + ntz(p[1]) is
+       8 * sizeof(size_t) for an odd p[1] as well as for an empty one. */
+    if (p[1] != 0) {
+        return 8 * sizeof(size_t) + ntz(p[1]);
     }
     return 0;
 }
